@@ -21,27 +21,29 @@ struct Tpl {
   cmt: &'static str,
   semi: &'static str,
   indent: &'static str,
+  /// block comment delimiters, when the language has a second comment kind
+  block: Option<(&'static str, &'static str)>,
 }
 
 fn templates() -> Vec<Tpl> {
   use SupportLang::*;
   vec![
-    Tpl { lang: JavaScript, head: &[], foot: &[], cmt: "//", semi: ";", indent: "" },
-    Tpl { lang: TypeScript, head: &["function main() {"], foot: &["}"], cmt: "//", semi: ";", indent: "  " },
-    Tpl { lang: Tsx, head: &[], foot: &[], cmt: "//", semi: ";", indent: "" },
-    Tpl { lang: Python, head: &["def main():"], foot: &[], cmt: "#", semi: "", indent: "    " },
-    Tpl { lang: Rust, head: &["fn main() {"], foot: &["}"], cmt: "//", semi: ";", indent: "    " },
-    Tpl { lang: Go, head: &["package main", "func main() {"], foot: &["}"], cmt: "//", semi: "", indent: "\t" },
-    Tpl { lang: Java, head: &["class A {", "  void main() {"], foot: &["  }", "}"], cmt: "//", semi: ";", indent: "    " },
-    Tpl { lang: C, head: &["int main() {"], foot: &["}"], cmt: "//", semi: ";", indent: "  " },
-    Tpl { lang: Cpp, head: &["int main() {"], foot: &["}"], cmt: "//", semi: ";", indent: "  " },
-    Tpl { lang: CSharp, head: &["class A {", "  void Main() {"], foot: &["  }", "}"], cmt: "//", semi: ";", indent: "    " },
-    Tpl { lang: Kotlin, head: &["fun main() {"], foot: &["}"], cmt: "//", semi: "", indent: "    " },
-    Tpl { lang: Ruby, head: &[], foot: &[], cmt: "#", semi: "", indent: "" },
-    Tpl { lang: Lua, head: &[], foot: &[], cmt: "--", semi: "", indent: "" },
-    Tpl { lang: Php, head: &["<?php"], foot: &[], cmt: "//", semi: ";", indent: "" },
-    Tpl { lang: Swift, head: &["func main() {"], foot: &["}"], cmt: "//", semi: "", indent: "    " },
-    Tpl { lang: Scala, head: &["object A {", "  def main(): Unit = {"], foot: &["  }", "}"], cmt: "//", semi: "", indent: "    " },
+    Tpl { lang: JavaScript, head: &[], foot: &[], cmt: "//", semi: ";", indent: "", block: Some(("/*", "*/")) },
+    Tpl { lang: TypeScript, head: &["function main() {"], foot: &["}"], cmt: "//", semi: ";", indent: "  ", block: Some(("/*", "*/")) },
+    Tpl { lang: Tsx, head: &[], foot: &[], cmt: "//", semi: ";", indent: "", block: Some(("/*", "*/")) },
+    Tpl { lang: Python, head: &["def main():"], foot: &[], cmt: "#", semi: "", indent: "    ", block: None },
+    Tpl { lang: Rust, head: &["fn main() {"], foot: &["}"], cmt: "//", semi: ";", indent: "    ", block: Some(("/*", "*/")) },
+    Tpl { lang: Go, head: &["package main", "func main() {"], foot: &["}"], cmt: "//", semi: "", indent: "\t", block: Some(("/*", "*/")) },
+    Tpl { lang: Java, head: &["class A {", "  void main() {"], foot: &["  }", "}"], cmt: "//", semi: ";", indent: "    ", block: Some(("/*", "*/")) },
+    Tpl { lang: C, head: &["int main() {"], foot: &["}"], cmt: "//", semi: ";", indent: "  ", block: Some(("/*", "*/")) },
+    Tpl { lang: Cpp, head: &["int main() {"], foot: &["}"], cmt: "//", semi: ";", indent: "  ", block: Some(("/*", "*/")) },
+    Tpl { lang: CSharp, head: &["class A {", "  void Main() {"], foot: &["  }", "}"], cmt: "//", semi: ";", indent: "    ", block: Some(("/*", "*/")) },
+    Tpl { lang: Kotlin, head: &["fun main() {"], foot: &["}"], cmt: "//", semi: "", indent: "    ", block: Some(("/*", "*/")) },
+    Tpl { lang: Ruby, head: &[], foot: &[], cmt: "#", semi: "", indent: "", block: None },
+    Tpl { lang: Lua, head: &[], foot: &[], cmt: "--", semi: "", indent: "", block: Some(("--[[", "]]")) },
+    Tpl { lang: Php, head: &["<?php"], foot: &[], cmt: "//", semi: ";", indent: "", block: Some(("/*", "*/")) },
+    Tpl { lang: Swift, head: &["func main() {"], foot: &["}"], cmt: "//", semi: "", indent: "    ", block: Some(("/*", "*/")) },
+    Tpl { lang: Scala, head: &["object A {", "  def main(): Unit = {"], foot: &["  }", "}"], cmt: "//", semi: "", indent: "    ", block: Some(("/*", "*/")) },
   ]
 }
 
@@ -75,6 +77,19 @@ pub fn run(o: &Opts) {
       let active: Vec<&RuleConfig<SupportLang>> = rules.iter().take(nrules).collect();
       let mut lines: Vec<String> = t.head.iter().map(|s| s.to_string()).collect();
       let mut cmts: Vec<Cmt> = vec![];
+      // a header in the language's OTHER comment kind (licence header style), sometimes itself a suppression
+      if let Some((bo, bc)) = t.block {
+        match rng.below(4) {
+          0 => lines.push(format!("{}{bo} header comment {bc}", t.indent)),
+          1 => {
+            let at = lines.len();
+            let text = format!("{bo} ast-grep-ignore {bc}");
+            lines.push(format!("{}{}", t.indent, text));
+            cmts.push(Cmt { governs: at + 1, at, ids: None, text });
+          }
+          _ => {}
+        }
+      }
       let nstmt = 2 + rng.below(5);
       for _ in 0..nstmt {
         // optional own-line comments (0-2) before the statement
@@ -122,7 +137,7 @@ pub fn run(o: &Opts) {
       // every generated comment must have been recognised as ONE comment node on its line (else the
       // grammar glued things together and the line-based expectation does not apply)
       let comment_nodes: Vec<_> = nodes.iter().filter(|n| n.kind().contains("comment")).collect();
-      let n_marked = lines.iter().filter(|l| l.contains(t.cmt)).count();
+      let n_marked = lines.iter().filter(|l| l.contains(t.cmt) || t.block.map(|b| l.contains(b.0)).unwrap_or(false)).count();
       if comment_nodes.len() != n_marked {
         out.count("source:comment-shape-unexpected(skipped)");
         continue;
